@@ -253,6 +253,35 @@ func (fv *FuncVC) applyContract(con *Contract, callee *ssa.Function, c *ssa.Call
 	}
 	// effects
 	fv.applyModifies(con, callee, env, args)
+	if con.Assumed && !con.Pure && c != nil && (callee == nil || callee.Blocks == nil) {
+		// an external function handed a pointer boxed in an interface (errors.As(err, &target), fmt.Sscan ...)
+		// may write through it, unless its assumed contract says exactly what it writes (ptrof designators)
+		explicit := false
+		for _, d := range con.Modifies {
+			if strings.Contains(d, "ptrof(") {
+				explicit = true
+			}
+		}
+		if !explicit {
+			for _, a := range c.Args {
+				mi, ok := a.(*ssa.MakeInterface)
+				if !ok {
+					continue
+				}
+				pt, ok := mi.X.Type().Underlying().(*types.Pointer)
+				if !ok {
+					continue
+				}
+				if _, isStruct := pt.Elem().Underlying().(*types.Struct); isStruct {
+					continue // struct targets are covered by the reachable-heap rule of the write-set inference
+				}
+				if pv, ok := fv.regs[mi.X]; ok && pv != nil && pv.T != "" {
+					p := fv.placeFromPointer(pv)
+					fv.storePlace(p, fv.havocVal("boxed", pt.Elem()))
+				}
+			}
+		}
+	}
 	// results
 	var res *Val
 	if tup, ok := resT.(*types.Tuple); ok && tup.Len() == 0 {
@@ -648,7 +677,92 @@ func (fv *FuncVC) afterHeapChange(name string) {
 }
 
 // havocMod havocs the heaps named in mod ("*" = all known heaps).
+// privateCell: an address-taken scalar local whose address goes nowhere but into loads, stores and the argument
+// lists of external functions with an assumed contract (binary.Read(r, order, &count) and the like, which write
+// through the pointer during the call and do not keep it). No function of the package can hold its address, so a
+// call into the package leaves the cell as it is, whatever that callee's write set says about cells of its type.
+func (fv *FuncVC) privateCell(a *ssa.Alloc) bool {
+	if v, ok := fv.privCells[a]; ok {
+		return v
+	}
+	res := false
+	defer func() { fv.privCells[a] = res }()
+	if !a.Heap || a.Referrers() == nil {
+		return false
+	}
+	if _, basic := a.Type().Underlying().(*types.Pointer).Elem().Underlying().(*types.Basic); !basic {
+		return false
+	}
+	var onlyAssumedArgs func(v ssa.Value, depth int) bool
+	onlyAssumedArgs = func(v ssa.Value, depth int) bool {
+		if v.Referrers() == nil || depth > 2 {
+			return false
+		}
+		for _, ref := range *v.Referrers() {
+			switch r := ref.(type) {
+			case *ssa.DebugRef:
+			case *ssa.UnOp:
+				if depth > 0 {
+					return false
+				}
+			case *ssa.Store:
+				if r.Val == v || depth > 0 {
+					return false
+				}
+			case *ssa.MakeInterface:
+				if !onlyAssumedArgs(r, depth+1) {
+					return false
+				}
+			case ssa.CallInstruction:
+				c := r.Common()
+				if c.IsInvoke() {
+					return false
+				}
+				if _, isGo := ref.(*ssa.Go); isGo {
+					return false
+				}
+				assumed := false
+				for _, k := range calleeKeys(c) {
+					if con := fv.g.spec.Contracts[k]; con != nil && con.Assumed {
+						assumed = true
+					}
+				}
+				if !assumed {
+					return false
+				}
+			default:
+				return false
+			}
+		}
+		return true
+	}
+	res = onlyAssumedArgs(a, 0)
+	return res
+}
+
 func (fv *FuncVC) havocMod(mod map[string]bool, args []*Val) {
+	if fv.fn != nil {
+		type savedCell struct {
+			p *Place
+			v *Val
+		}
+		var priv []savedCell
+		for _, b := range fv.fn.Blocks {
+			for _, in := range b.Instrs {
+				if a, ok := in.(*ssa.Alloc); ok && !fv.direct[a] && fv.privateCell(a) {
+					if r, ok := fv.regs[a]; ok {
+						p := fv.placeFromPointer(r)
+						priv = append(priv, savedCell{p, fv.loadPlace(fv.cur, p)})
+					}
+				}
+			}
+		}
+		defer func() {
+			for _, k := range priv {
+				fv.storePlace(k.p, k.v)
+			}
+		}()
+	}
 	if mod["*"] {
 		// A-CAPTURE: the variables this closure captured are written only by the declaring function and the
 		// closures that captured them; a callee that is not handed a closure leaves them as they are
